@@ -123,9 +123,42 @@ def _isinstance_classes(n: ast.expr) -> list[ast.expr]:
     return [n]
 
 
+def _literal_elts(e: ast.expr) -> list[ast.expr] | None:
+    """the elements of a literal sequence: a tuple/list display, tuple(..)/list(..) of one, or a comprehension with a single
+    unfiltered generator over a literal sequence"""
+    if isinstance(e, (ast.Tuple, ast.List)) and not any(isinstance(x, ast.Starred) for x in e.elts):
+        return list(e.elts)
+    if isinstance(e, ast.Call) and isinstance(e.func, ast.Name) and e.func.id in ("tuple", "list") and len(e.args) == 1 and not e.keywords:
+        return _literal_elts(e.args[0])
+    if isinstance(e, (ast.ListComp, ast.GeneratorExp)) and len(e.generators) == 1 and not e.generators[0].ifs and isinstance(e.generators[0].target, ast.Name):
+        dom = _literal_elts(e.generators[0].iter)
+        if dom is not None and len(dom) <= 8:
+            return [_Subst(e.generators[0].target.id, d).visit(copy.deepcopy(e.elt)) for d in dom]
+    return None
+
+
 class _Canon(ast.NodeTransformer):
+    def visit_Subscript(self, node: ast.Subscript) -> ast.AST:
+        self.generic_visit(node)
+        if isinstance(node.ctx, ast.Load) and isinstance(node.slice, ast.Constant) and isinstance(node.slice.value, int) and not isinstance(node.slice.value, bool):
+            i = node.slice.value
+            v = node.value
+            if isinstance(v, ast.IfExp):
+                # (a if c else b)[i]  ->  a[i] if c else b[i]
+                return ast.IfExp(v.test, self.visit(ast.Subscript(v.body, node.slice, ast.Load())), self.visit(ast.Subscript(v.orelse, node.slice, ast.Load())))
+            elts = _literal_elts(v)
+            if elts is not None and -len(elts) <= i < len(elts):
+                return elts[i]
+        return node
+
     def visit_Compare(self, node: ast.Compare) -> ast.AST:
         self.generic_visit(node)
+        if len(node.ops) == 1 and isinstance(node.ops[0], (ast.Eq, ast.NotEq)):
+            # (a, b) == (c, d)  ->  a == c and b == d ;  (a, b) != (c, d)  ->  a != c or b != d
+            l, r = node.left, node.comparators[0]
+            if isinstance(l, ast.Tuple) and isinstance(r, ast.Tuple) and len(l.elts) == len(r.elts) >= 2 and not any(isinstance(x, ast.Starred) for x in (*l.elts, *r.elts)):
+                parts = [self.visit(ast.Compare(a, [type(node.ops[0])()], [b])) for a, b in zip(l.elts, r.elts)]
+                return ast.BoolOp(ast.And() if isinstance(node.ops[0], ast.Eq) else ast.Or(), parts)
         if len(node.ops) == 1 and type(node.ops[0]) in _MIRROR:
             l, r = node.left, node.comparators[0]
             if isinstance(l, ast.Constant) and not isinstance(r, ast.Constant):
@@ -215,7 +248,83 @@ def _flatten_else_after_exit(stmts: list[ast.stmt]) -> list[ast.stmt]:
     return out
 
 
+def _leading_walrus(test: ast.expr) -> tuple[ast.NamedExpr, ast.expr] | None:
+    """(walrus, test with the walrus replaced by its target) when the walrus is the first thing the test evaluates"""
+    path: list[ast.AST] = []
+    cur: ast.AST = test
+    for _ in range(6):
+        if isinstance(cur, ast.NamedExpr):
+            break
+        if isinstance(cur, ast.Compare):
+            path.append(cur)
+            cur = cur.left
+        elif isinstance(cur, ast.UnaryOp) and isinstance(cur.op, ast.Not):
+            path.append(cur)
+            cur = cur.operand
+        elif isinstance(cur, ast.BoolOp):
+            path.append(cur)
+            cur = cur.values[0]
+        elif isinstance(cur, ast.Call) and isinstance(cur.func, ast.Name) and cur.args and not cur.keywords:
+            path.append(cur)
+            cur = cur.args[0]
+        else:
+            return None
+    if not isinstance(cur, ast.NamedExpr) or not isinstance(cur.target, ast.Name):
+        return None
+    name = ast.copy_location(ast.Name(cur.target.id, ast.Load()), cur)
+    if not path:
+        return cur, name
+    par = path[-1]
+    if isinstance(par, ast.Compare):
+        par.left = name
+    elif isinstance(par, ast.UnaryOp):
+        par.operand = name
+    elif isinstance(par, ast.BoolOp):
+        par.values[0] = name
+    elif isinstance(par, ast.Call):
+        par.args[0] = name
+    return cur, test
+
+
+def _split_walrus_tests(stmts: list[ast.stmt]) -> list[ast.stmt]:
+    """`if X or Y: <exit>` with an assignment expression in the test becomes `if X: <exit>` `if Y: <exit>`, and a walrus that is the
+    first thing a test evaluates becomes an assignment in front of the `if` (both behaviour-preserving): a helper called inside
+    a test is then an ordinary call statement"""
+    out: list[ast.stmt] = []
+    for st in stmts:
+        for fld in ("body", "orelse", "finalbody"):
+            sub = getattr(st, fld, None)
+            if isinstance(sub, list) and sub and isinstance(sub[0], ast.stmt):
+                setattr(st, fld, _split_walrus_tests(sub))
+        if isinstance(st, ast.Try):
+            for h in st.handlers:
+                h.body = _split_walrus_tests(h.body)
+        if isinstance(st, ast.Return) and isinstance(st.value, ast.IfExp):
+            # `return a if c else b`  ->  `if c: return a` / `return b`
+            v = st.value
+            first = ast.copy_location(ast.If(v.test, [ast.copy_location(ast.Return(v.body), st)], []), st)
+            rest = ast.copy_location(ast.Return(v.orelse), st)
+            out.extend(_split_walrus_tests([first, rest]))
+            continue
+        if isinstance(st, ast.If) and not st.orelse and len(st.body) == 1 and isinstance(st.body[0], _EXITS) \
+                and any(isinstance(n, ast.NamedExpr) for n in ast.walk(st.test)):
+            tests = list(st.test.values) if isinstance(st.test, ast.BoolOp) and isinstance(st.test.op, ast.Or) else [st.test]
+            for t in tests:
+                lw = _leading_walrus(t)
+                if lw is not None:
+                    w, t = lw
+                    out.append(ast.copy_location(ast.Assign([ast.Name(w.target.id, ast.Store())], w.value), st))
+                out.append(ast.copy_location(ast.If(t, [copy.deepcopy(x) for x in st.body], []), st))
+            continue
+        out.append(st)
+    return out
+
+
 def canon_tree(tree: ast.Module) -> ast.Module:
+    for node in ast.walk(tree):
+        if isinstance(node, (ast.FunctionDef, ast.AsyncFunctionDef)):
+            node.body = _split_walrus_tests(node.body)
+    ast.fix_missing_locations(tree)
     for node in ast.walk(tree):
         if isinstance(node, (ast.FunctionDef, ast.AsyncFunctionDef)):
             node.body = _flatten_else_after_exit(node.body)
